@@ -86,4 +86,10 @@ theorem crsd_formatted_chunk_uses_last_accepted_pvp (c : Cfg α) (i r0 : Nat) (h
       some (r0, d.len / (c.item (c.sigIdx i)).rowBytes, C09.lastAmp c i (init c) ops none) :=
   C09.formatted_chunk_uses_last_accepted_pvp c i r0 hi ops d hok
 
+/-- CRSDWriter1 inherits `write_support_array`: in memory an accepted call records exactly the block handed over, and it stays recorded -/
+theorem crsd_accepted_sup_write_records_handed_bytes (c : Cfg α) (s : State α) (j : Nat) (d : Blk α) (ops : List (Op α)) (hm : c.inMem = true)
+    (hok : ¬ supBad c s j d) (hnb : (s.el (c.supIdx j)).bytes = none) :
+    (step c s (.writeSup j d)).2 = .ok ∧ ((run c s (.writeSup j d :: ops)).el (c.supIdx j)).bytes = some d :=
+  C09.accepted_sup_write_records_handed_bytes c s j d ops hm hok hnb
+
 end Sarpy.Props.C11
